@@ -6,6 +6,8 @@ import PyGqlModel.StringUtils
 import PyGqlModel.PrintString
 import PyGqlModel.Spec.Lexical
 import PyGqlModel.Spec.BlockStringSpec
+import PyGqlModel.Utf8
+import PyGqlModel.ParseLazy
 import Driver.ParseOps
 open PyGql
 
@@ -60,12 +62,23 @@ def handle? (j : J) : Option J :=
     let render (pos : Nat) : List (String × J) :=
       [("pos", J.ofNat pos), ("str_ok", .bool (StringUtils.highlighted s pos).isSome),
        ("dict", ofLoc (StringUtils.toDict s pos))]
+    -- the LAZY token window (ParseLazy.lean): which of a grammatical and a later lexical error the real parser reports
+    let lazyErr (le : Lex.SynErr) : List (String × J) :=
+      match Driver.ParseOps.parseEntry (j.strD "entry") (Driver.ParseOps.flagsOfJson j) (Lex.lexPrefix s).1 with
+      | .error pe => if pe.eof then [("lazy_stage", .str "lex"), ("lazy_pos", J.ofNat le.pos)]
+                     else [("lazy_stage", .str "parse"), ("lazy_pos", J.ofNat pe.pos)]
+      | .ok _ => [("lazy_stage", .str "lex"), ("lazy_pos", J.ofNat le.pos)]
     some <| match Lex.lexAll s with
-    | .error e => .obj [("err", .obj ([("stage", .str "lex")] ++ render e.pos))]
+    | .error e => .obj [("err", .obj ([("stage", .str "lex")] ++ render e.pos ++ lazyErr e))]
     | .ok toks =>
       match Driver.ParseOps.parseEntry (j.strD "entry") (Driver.ParseOps.flagsOfJson j) toks with
       | .ok (ast, _) => .obj [("ok", ast)]
       | .error e => .obj [("err", .obj ([("stage", .str "parse")] ++ render e.pos))]
+  | "decode_utf8" =>
+    -- `Lexer.__init__` on a bytes source: the decoded text, or the character offset of the first undecodable sequence
+    some <| match Utf8.decode (j.textD "bytes") with
+    | .ok t => .obj [("ok", J.ofText t)]
+    | .error pos => .obj [("err", J.ofNat pos)]
   | "spec_lexeme" =>
     let l := j.textD "text"
     let raw := Spec.Lexical.blockStringRaw l
